@@ -12,6 +12,8 @@ import (
 	"context"
 	"errors"
 	"fmt"
+	"io"
+	"log"
 	"math"
 	"math/rand"
 	"net"
@@ -37,6 +39,9 @@ var quietOnce sync.Once
 // imported here to keep the -race build of this driver small).
 func quiet() {
 	quietOnce.Do(func() {
+		// pebble (dragonboat's log DB) reports "background error: vfs: not supported" on the
+		// in-memory FS through the standard library logger
+		log.SetOutput(io.Discard)
 		for _, n := range []string{"raft", "rsm", "transport", "grpc", "dragonboat", "logdb", "raftpb", "config", "settings", "tan", "utils", "pebblekv", "order", "tests", "server", "fileutil"} {
 			logger.GetLogger(n).SetLevel(logger.CRITICAL)
 		}
@@ -163,8 +168,13 @@ type witness2 struct {
 	Description string `json:"description,omitempty"`
 }
 
-// judgeHistory checks the complete recorded history; returns false if inconclusive.
 func judgeHistory(r *ev.Run, id caseID, all []hop) {
+	judgeLinearizable(r, id, all)
+	judgeVersions(r, id, all)
+}
+
+// judgeLinearizable checks every key's history against the CAS-register model.
+func judgeLinearizable(r *ev.Run, id caseID, all []hop) {
 	byKey := map[string][]hop{}
 	for _, o := range all {
 		byKey[o.Key] = append(byKey[o.Key], o)
@@ -219,8 +229,10 @@ func judgeHistory(r *ev.Run, id caseID, all []hop) {
 		}
 		report(r, sig, what, w)
 	}
+}
 
-	// versions handed out by successful sets: distinct, and ordered like real time
+// judgeVersions: versions handed out by successful sets are distinct and ordered like real time.
+func judgeVersions(r *ev.Run, id caseID, all []hop) {
 	var sets []hop
 	for _, o := range all {
 		if o.Kind == "set" && o.Out == "ok" {
